@@ -6,22 +6,39 @@ from vlib import std, lab, common
 
 PID = "C16"
 META = {
-    "text": "Model (DiskcrashModel.v): rock db image = slot id -> (DbCellHeader, payload area); a store = a session of slot "
-            "writes in chain order (slots from the lowest-free allocator in the order tryWrite/writeToDisk reserve them, "
-            "entrySize only in the last write); crash = any prefix of the write list plus an optionally torn next write; "
-            "recovery = Rock::Rebuild (loadOneSlot .. finalizeOrThrow/freeBadEntry) transcribed branch by branch; hit = key "
-            "lookup + chain walk + swap-meta key check. Theorems (Properties_C16.v): see the list in the file; the full "
-            "statement is REFUTED twice by vm_compute witnesses that the check replays on the real binary "
-            "(same-key overwrite into the recycled slots killed before its last slot write; torn slot write), and PROVED "
-            "for all workloads and all crash points under the stated freshness hypothesis.",
-    "note": "partial: rock only (ufs/aufs/diskd not modelled or exercised); theorems are about the transcribed model, tied to "
-            "the code by the generated layout constants and by the end-to-end correspondence (write trace, restart, hit "
-            "bytes) on the explored scenarios. Not modelled: SMP/asynchronous disk I/O, concurrent readers, slot "
-            "exhaustion, header updates, writes torn inside one header field. Trusted: Coq kernel, extraction, "
-            "gen/gen_diskcrash.cc, vlib/lab.py stubs, lab/shim_crash.c.",
-    "technique": "Coq proof (induction over the write list / the rebuild scan; vm_compute witnesses for the refutations) + "
-                 "end-to-end differential correspondence of the extracted model against the running squid killed at every "
-                 "write boundary + independent oracle on the bytes of post-restart hits",
+    "text": "Model (DiskcrashModel.v): rock db image = slot id -> (DbCellHeader, payload area); the running cache (StoreMap "
+            "anchors/slices + lowest-free slot set, PURGE only marks an entry, a store frees whatever occupies its anchor) turns "
+            "every store into a session of slot writes in chain order, in the order tryWrite/writeToDisk reserve the slots "
+            "(second-lowest free slot first), entrySize only in the last write; crash = any prefix of the write list plus an "
+            "optionally torn next write (cut at a header field boundary or inside the payload); recovery = Rock::Rebuild "
+            "(loadOneSlot .. addSlotToEntry/importEntry/finalizeOrThrow/freeBadEntry, validateOneEntry) transcribed branch by "
+            "branch; hit = key lookup + walk of the mapped chain + swap-meta checks + Content-Length framing. Theorems "
+            "(Properties_C16.v, closed under the global context): (1) C16_rock_crash_hit_is_complete_version_refuted: the full "
+            "statement is FALSE at write boundaries (same-key overwrite into the recycled slots, killed before its last slot "
+            "write: hit = new,new,old; versions are never compared) and (2) C16_rock_torn_write_..._refuted: FALSE for a torn "
+            "slot write (header complete, payload cut) -- both witnesses replayed on the real binary on every run; (3) "
+            "C16_rock_crash_consistent_write_once_partial: for ALL workloads that write every slot at most once and ALL crash "
+            "points, every hit after recovery is the complete stream of a session with that key whose last write completed "
+            "(induction over the rebuild scan and validation with per-chain invariants, chain-walk lemmas); (4) "
+            "C16_rock_completed_entries_served_after_crash_write_once_partial: under the same hypotheses every completely "
+            "written entry IS a hit with its bytes; (5) C16_rock_crash_consistent_unless_overwrite_in_flight_bounded_partial: "
+            "exhaustive vm_compute sweep of all 41371 workloads of <= 4 operations (stores of 1-3 slots under two keys, purges; "
+            "slot reuse and same-key overwrites included) x all crash points: a hit is wrong ONLY when a same-key overwrite is "
+            "in flight at the crash.",
+    "note": "partial: rock only (ufs/aufs/diskd: swap.state replay and directory scan not modelled or exercised); the general "
+            "theorem needs the write-once hypothesis (slot reuse is covered only by the bounded sweep and the end-to-end "
+            "runs); 'restarts successfully' rests on the end-to-end runs (the model's rebuild is total; assertion freedom of "
+            "the rebuild on arbitrary images is C57's subject). Theorems are about the transcribed model, tied to the code by "
+            "the generated layout constants (gen_diskcrash) and by the end-to-end correspondence (slot ids and lengths of "
+            "every cache-file write, restart, hit/miss and hit bytes per URL) on the explored scenarios. Not modelled: SMP / "
+            "asynchronous disk I/O, concurrent readers, slot exhaustion (purgeOne), header updates, writes torn inside one "
+            "header field, object bodies that imitate swap metadata. Trusted: Coq kernel, extraction, gen/gen_diskcrash.cc, "
+            "vlib/lab.py stubs, lab/shim_crash.c.",
+    "technique": "Coq proof (inductive invariants over the rebuild's slot scan and entry validation, quantified over all "
+                 "write-once workloads and all crash prefixes; exhaustive vm_compute sweep for the bounded theorem; vm_compute "
+                 "witnesses for the refutations) + end-to-end differential correspondence of the extracted model against the "
+                 "running squid killed at chosen cache-file writes (LD_PRELOAD shim) + independent oracle on the bytes of "
+                 "post-restart hits",
 }
 
 CACHE_MB = 16
